@@ -7,8 +7,10 @@ import (
 	"fmt"
 	"io"
 	"sync"
+	"sync/atomic"
 	"time"
 
+	"github.com/google/uuid"
 	"github.com/hashicorp/serf/serf"
 	"go.uber.org/zap"
 	"go.uber.org/zap/zapcore"
@@ -40,6 +42,10 @@ type peer struct {
 	state   peerState
 	// client-side stream
 	stream *stream
+	// synced reports whether a clean start has been completed with the current sessionID.
+	synced bool
+	// ackFloor is the id following the highest event the remote node has acknowledged in the current session.
+	ackFloor uint64
 }
 
 type stream struct {
@@ -50,6 +56,8 @@ type stream struct {
 	errOnce sync.Once
 	err     error
 	wg      sync.WaitGroup
+	// ackFloor points to peer.ackFloor
+	ackFloor *uint64
 }
 
 // interface for testing
@@ -234,10 +242,24 @@ func (p *peer) initStream(client FederationClient, conn *grpc.ClientConn) (s *st
 		SessionId: p.sessionID,
 	})
 	if err != nil {
+		if !p.synced {
+			// The remote node may have processed the Hello (and created the session) although we never saw the
+			// answer. As long as no clean start has been completed with this session id, use a fresh id, so that the
+			// next handshake is answered with clean_start for sure.
+			p.sessionID = uuid.New().String()
+		}
 		return nil, fmt.Errorf("handshake error: %s", err.Error())
 	}
-	log.Info("handshake succeed", zap.String("remote_node", p.member.Name), zap.Bool("clean_start", sh.CleanStart))
-	if sh.CleanStart {
+	cleanStart := sh.CleanStart
+	if !cleanStart && sh.NextEventId < atomic.LoadUint64(&p.ackFloor) {
+		// The remote node asks for events it has acknowledged before: its session has been re-created by a Hello whose
+		// answer was lost. Its state for this node is empty, rebuild it.
+		cleanStart = true
+	}
+	log.Info("handshake succeed", zap.String("remote_node", p.member.Name), zap.Bool("clean_start", cleanStart))
+	if cleanStart {
+		p.synced = true
+		atomic.StoreUint64(&p.ackFloor, 0)
 		p.queue.clear()
 		// sync full state
 		p.fed.localSubStore.Lock()
@@ -262,7 +284,11 @@ func (p *peer) initStream(client FederationClient, conn *grpc.ClientConn) (s *st
 			return true
 		})
 	}
-	p.queue.setReadPosition(sh.NextEventId)
+	if cleanStart {
+		p.queue.setReadPosition(0)
+	} else {
+		p.queue.setReadPosition(sh.NextEventId)
+	}
 	md := metadata.Pairs("node_name", p.localName)
 	ctx := metadata.NewOutgoingContext(context.Background(), md)
 	c, err := client.EventStream(ctx)
@@ -271,10 +297,11 @@ func (p *peer) initStream(client FederationClient, conn *grpc.ClientConn) (s *st
 	}
 	p.queue.open()
 	s = &stream{
-		queue:  p.queue,
-		conn:   conn,
-		client: c,
-		close:  make(chan struct{}),
+		queue:    p.queue,
+		conn:     conn,
+		client:   c,
+		close:    make(chan struct{}),
+		ackFloor: &p.ackFloor,
 	}
 	p.stream = s
 	return s, nil
@@ -346,6 +373,9 @@ func (s *stream) readLoop() {
 				return
 			}
 			s.queue.ack(resp.EventId)
+			if s.ackFloor != nil {
+				atomic.StoreUint64(s.ackFloor, resp.EventId+1)
+			}
 			if ce := log.Check(zapcore.DebugLevel, "event acked"); ce != nil {
 				ce.Write(zap.Uint64("id", resp.EventId))
 			}
